@@ -1,2 +1,22 @@
 """Sequential bounded-exhaustive enumerators (exploration level)."""
 from specs import reg, SeqRun  # noqa: F401
+
+SEQ_ASSUME = ['single-threaded use of the unmodified headers; the enumerator is compiled with ASan+UBSan, so any memory error or UB on an enumerated case aborts it and is reported as a violation',
+              'the reference model (std::vector / optional semantics / counters) is trusted']
+
+
+def seq_check(pid, binary, technique, text, note, quick_budget=150, thorough_budget=900, extra_bins=()):
+    def runs(tier):
+        return [SeqRun(b, tier, budget=quick_budget if tier == 'quick' else thorough_budget) for b in (binary,) + tuple(extra_bins)]
+    reg(pid, level='exploration', runs=runs, quick_budget_s=quick_budget, thorough_budget_s=thorough_budget, technique=technique,
+        level_text=text, level_note=note, design_ref='DESIGN.md section 4, ' + pid, assumptions=SEQ_ASSUME)
+
+
+seq_check('C40', 'c40_opresult',
+          'bounded-exhaustive enumeration of all OpResult operation sequences against optional semantics with lifetime tracking',
+          'Every applicable operation sequence of length <=4 (quick) / <=5 (thorough) over up to 3 OpResult<Tracked<int>> objects and {construct empty / from rvalue / from lvalue, emplace, destroy, copy- and move-construct from j, copy- and move-assign i=j including self}; after every step engagement, value, operator bool and return values are compared with hand-tracked optional semantics (moved-from objects unspecified), and at the end of every history constructions and destructions of contained objects must balance with nothing constructed over a live object.',
+          'single-threaded; moved-from state treated as unspecified so the oracle does not demand more than optional semantics')
+seq_check('C39', 'c39_oncefunction',
+          'bounded-exhaustive enumeration of callable size x alignment x move/call histories for OnceFunction with per-instance lifetime counters',
+          '13 callable sizes x 7 alignments (51 distinct types across the inline/spill boundary and every small-buffer class) x 7 histories (call; cleanupNotRun; move,call; move,move,cleanupNotRun; move-assign then call/cleanup; construct from lvalue) x 4 block-recycling schedules x 300 repetitions (x10 rounds thorough). Oracle: invoked exactly when called and at most once, destroyed exactly once, `this` aligned at construction/invocation/destruction, obligations follow the move.',
+          'single-threaded; UBSan alignment check is disabled around the callable type so that misalignment is reported by the oracle with a replay instead of an abort')
